@@ -571,8 +571,8 @@ pub fn main(args: &Args) -> Report {
         *c <= 2
     });
     rep.out = out;
-    rep.floor("inputs", rep.out.evaluations, if t { 50_000 } else { 10_000 });
-    rep.floor("inputs reaching execution", rep.counter("inputs_reaching_execution"), if t { 15_000 } else { 2000 });
+    rep.floor("inputs", rep.out.evaluations, if t { 30_000 } else { 4_000 });
+    rep.floor("inputs reaching execution", rep.counter("inputs_reaching_execution"), if t { 8_000 } else { 700 });
     for f in ["random", "grammar", "mutated-seed", "depth-bomb", "huge-literal"] {
         rep.floor(&format!("family {f}"), rep.counter(&format!("family.{f}")), if matches!(f, "depth-bomb" | "huge-literal") { 20 } else { 1000 });
     }
